@@ -21,5 +21,12 @@ def run(tier):
                             "2 components) with TLC-drawn tables; per instance several seeded per-channel-FIFO schedules under four policies "
                             "(random, all starts first, laggard computation, barrier); stop_cycle k in {1,2,3,5}; judged by AlgoMon clauses "
                             "EXC / quiet_but_not_all_finished / C07_finished_at_wrong_cycle; non-trivial = execution with >1 step that "
-                            "reached all-finished, distinct by (algorithm, instance, policy, schedule class)")
+                            "reached all-finished, distinct by (algorithm, instance, policy, schedule class). "
+                            "MODEL: Mgm.tla checked by TLC over every start order, FIFO delivery order and random draw (invariants "
+                            "FinishedAtStop, QuietMeansFinished, absence of deadlock before the end, structural ones) for stop_cycle 1-3, "
+                            "every explored transition replayed on the real MgmComputation objects")
+    from ..mgmmodel import model_part
+    for k in ([2] if quick else [1, 2, 4]):
+        model_part(v, tier, ["FinishedAtStop", "QuietMeansFinished"], CLAUSES, ["quiet_fin", "stop"], seed_off=7 + k, stop=k,
+                   shapes=["pair", "unarypair", "isolated", "isounary", "path3", "fork3", "triangle"] + ([] if quick else ["tern", "twocomp", "path3d3"]))
     return v.finish()
